@@ -21,9 +21,36 @@ FIELDS = ("what", "crash", "exhausted", "sameAgain", "parseOk", "valid", "facts"
 EMPTY_FACTS = {"types": [], "directives": [], "impl": {}, "fields": {}, "frags": {}, "ops": []}
 
 
+import re
+
+SUBTYPE = re.compile(r"^interface field `(\w+)\.(\w+)` expects type `[^`]*` but `(\w+)\.(\w+)` of type `[^`]*` is not a proper subtype")
+REQUIRED = re.compile(r"^the required field `(\w+)\.(\w+)` is not provided")
+
+
+def extension_after_use(r):
+    """Both families need an extension that adds a field to a type that was already used, and nothing else wrong."""
+    errs = r.get("errors") or []
+    text = r.get("text") or ""
+    if not errs:
+        return None
+    if all(SUBTYPE.match(e) for e in errs):
+        # `extend interface I { f: .. }` generated after an implementer of I had declared f with another type
+        if all(re.search(r"extend interface %s\b" % SUBTYPE.match(e).group(1), text) for e in errs):
+            return "interface-extension-field-after-implementer"
+    if all(REQUIRED.match(e) for e in errs):
+        # `extend input T { f: X! }` generated after an object literal of type T had been written
+        if all(re.search(r"extend input %s\b" % REQUIRED.match(e).group(1), text) for e in errs):
+            return "input-extension-required-field-after-literal"
+    return None
+
+
 def cause_of(r):
     if "died" in r:
         return "generator-stack-overflow"
+    if r.get("what") == "document" and not r.get("crash") and not r.get("exhausted") and r.get("parseOk") and not r.get("valid"):
+        c = extension_after_use(r)
+        if c:
+            return c
     if r.get("crash") and "need to implement for union" in (r.get("panic") or ""):
         return "union-typed-field-todo"
     if not r.get("crash") and not r.get("exhausted") and not r.get("valid") and r.get("depth", 0) > 100:
@@ -36,7 +63,7 @@ def run(chk):
     r = vlib.tlc("MC_SmithDoc", "MC_SmithDoc%s.cfg" % sfx, chk.work, workers=8, timeout=3000)
     vlib.tlc_must_pass(r, "MC_SmithDoc")
     chk.add_tlc(r)
-    count, ops = (500, 400) if chk.quick else (40000, 20000)
+    count, ops = (3000, 400) if chk.quick else (60000, 20000)
     raw = os.path.join(chk.work, "smith.ndjson")
     rows = vlib.vh_resumable(["smith-record", "--seed", chk.seed, "--count", count, "--ops", ops], count + ops, raw, timeout=7000)
     for r in rows:
